@@ -28,8 +28,15 @@ def gen_call(ctx: Ctx, M):
         tasks, m_tasks = None, [list(tl) for tl in M.task_leaves]
     else:
         tasks = []
+        all_own = sorted({p for tl in M.task_leaves for p in tl})
         for tl in M.task_leaves:
             tp = [p for p in tl if rng.random() < 0.85]
+            if all_own and rng.random() < 0.2:
+                # a parameter listed for a task whose loss does not depend on it (every head handed the same list of
+                # head parameters): that task contributes zeros to it, the tasks that do use it contribute their gradient
+                extra = rng.choice(all_own)
+                if extra not in tp and extra not in shared_default:
+                    tp.append(extra)
             rng.shuffle(tp)
             tasks.append(tp)
         m_tasks = tasks
